@@ -98,7 +98,7 @@ def ast_nterms(a):
     return len([1 for w, c in ast_lin(a).items() if c != 0])
 
 
-COEFS = [(1, 2), (-1, 2), (2, 1), (-2, 1), (3, 2), (1, 4), (-3, 4), (1, 1), (-1, 1), (5, 8), (3, 1), (-13, 8)]
+COEFS = [(1, 2), (-1, 2), (2, 1), (-2, 1), (3, 2), (1, 4), (-3, 4), (1, 1), (-1, 1), (5, 8), (3, 1), (-13, 8), (-1, 1), (-1, 1), (-1, 1)]
 
 
 def gen_word(rng, wires, opaque=0.0, ident_factor=0.1, maxlen=3):
@@ -128,7 +128,7 @@ def gen_term(rng, wires, pool, opaque=0.0, scalar=0.5):
     return w
 
 
-def gen_obs(rng, wires, pool, opaque=0.0, lc=0.1, depth=0):
+def gen_obs(rng, wires, pool, opaque=0.0, lc=0.25, depth=0):
     """random observable: word / scalar multiple / sum with identity terms, offsets, nesting"""
     r = rng.random()
     if r < 0.25:
@@ -152,7 +152,13 @@ def gen_obs(rng, wires, pool, opaque=0.0, lc=0.1, depth=0):
                 cs.append(x[1]); os_.append(x[2])
             else:
                 cs.append([1, 1]); os_.append(x)
+        pure = [j for j, x in enumerate(os_) if '"H"' not in json.dumps(x) and '"Pr"' not in json.dumps(x)]
+        if pure and rng.random() < 0.6:       # the same Pauli word twice in one Hamiltonian: coefficients must add up
+            j = rng.choice(pure)
+            os_.append(json.loads(json.dumps(os_[j]))); cs.append(list(rng.choice(COEFS)))
         return ["lc", cs, os_]
+    if args and rng.random() < 0.2:
+        args.append(json.loads(json.dumps(rng.choice(args))))
     return ["sum", args]
 
 
